@@ -5,6 +5,7 @@ AXIOMS = "axioms allowed in property theorems: propext, Classical.choice, Quot.s
 HARNESS = "the Rust correspondence harness /verif/harness (generators, serialisers, canonicalisers) and the compiled Lean driver zvdriver (Lean code generator); rustc/cargo"
 
 props = {}
+PENDING_REASONS = {}
 
 props["C05"] = {
     "harness": "c05",
@@ -19,4 +20,29 @@ props["C05"] = {
                      "modelled, not verified: lang/dynamics/src/impls.rs integer_* and lang/syntax/src/lib.rs IntegerLiteral::with_type are mirrored by ZV/Model/Numeric.lean and compared on every run; float arithmetic and float to_string are compared with Lean's native Float/Float32 (same hardware operations), not proved"],
     "assumptions": ["Rust's wrapping_* on iN/uN is two's-complement arithmetic (what the differential run observes)",
                     "literal source text -> i128 parsing is covered under C10/C11, not here"],
+}
+
+props["C05"]["manifest"] = {
+    "text": "Integer semantics of all eight types and the literal range check are Lean theorems over all operands (unbounded quantifiers, omega/BitVec lemmas, no enumeration); the model mirrors impls.rs/IntegerLiteral::with_type and is compared with the real Prim step on all 2x8x65,536 8-bit pairs, boundary grids and random wide operands, and through the whole front end for literals at every range boundary. Float arithmetic is correspondence-only (stated, not proved).",
+    "note": "Trusted: Lean kernel; axioms propext/Classical.choice/Quot.sound; the harness and compiled driver; Rust's wrapping_* being two's complement. Not proved: IEEE-754 float behaviour (no float library in this image), literal text -> i128 parsing (C10/C11).",
+    "technique": "Lean 4 theorems about a BitVec model + differential correspondence with the interpreter's primitives",
+}
+
+props["C11"] = {
+    "harness": "c11",
+    "level": "proof",
+    "nontrivial": r"^c11 (lex|tool) [A-Z]*[OCU][A-Z]*$",
+    "extra_eval_counters": ["parse_accept", "parse_reject", "parse_panic"],
+    "rule": "each case is the raw logos token stream of one text (a repository source, a repository source with a lexical irregularity - stray terminator, unknown character, unterminated opener, malformed literal - spliced at a token gap, or a random lexeme soup); the real Lexer's emitted set and the real LexicalTokens view are compared with the Lean model, and every accepted text's root span is compared with the end of its last token outside comments. Non-trivial = distinct raw streams containing a comment bracket or an unknown token.",
+    "explanation": "Kernel-checked: the mirror of `impl Iterator for Lexer` hands the parser exactly the program tokens outside comments, in order (lexer_complete, lexer_ordered, stray_close_reaches_parser), and the tooling lexer agrees with it (lexers_agree), for every raw stream. Tied to lexer.rs by running both real lexers on every case. The step from 'every token was handed over' to 'every token is in the parsed term' is the trusted LALRPOP fact that an Ok parse consumed its whole iterator, additionally observed through the root span on every accepted text.",
+    "trusted_base": [KERNEL, AXIOMS, HARNESS,
+                     "trusted, not modelled: logos' regex classification of characters into raw tokens (an input of the model); LALRPOP returns Ok only after consuming every token its iterator yields",
+                     "modelled, not verified: lang/surface/src/textual/lexer.rs `impl Iterator for Lexer` and `LexicalTokens` are mirrored by ZV/Model/Lexer.lean and compared on every run"],
+    "assumptions": ["logos yields no Err item for this token set (catch-all rule); the model has the arm anyway and the harness counts Err items (input_distribution.raw_err_items)"],
+}
+
+props["C11"]["manifest"] = {
+    "text": "For every raw token stream, the mirrored parser-side lexer hands over exactly the program tokens outside comments, in order, and the tooling lexer agrees (Lean theorems by induction over the stream, no bound). The mirror is compared with both real lexers on every repository source, on each of them with lexical irregularities spliced at token gaps, and on random lexeme soups; accepted texts are additionally checked to be consumed up to their last token.",
+    "note": "Trusted: Lean kernel and the three standard axioms; logos' character classification (an input of the model); LALRPOP consuming its whole iterator before returning Ok; the harness and compiled driver.",
+    "technique": "Lean 4 theorems about a mirrored lexer loop + differential correspondence with Lexer/LexicalTokens + root-span oracle",
 }
